@@ -1,5 +1,6 @@
 //! Generators. Every generator is a plain function of a `Choices`.
 
+pub mod abi;
 pub mod syn;
 pub mod wild;
 
